@@ -189,6 +189,8 @@ func c01R1(c *Check, R *Roles) {
 	}
 }
 
+var codeDepth int
+
 // codeProvablyNotOK decides whether the codes.Code value v is != OK at instruction at.
 func codeProvablyNotOK(R *Roles, fn *ssa.Function, at ssa.Instruction, v ssa.Value) (bool, string) {
 	if n, ok := constInt(v); ok {
@@ -234,6 +236,37 @@ func codeProvablyNotOK(R *Roles, fn *ssa.Function, at ssa.Instruction, v ssa.Val
 				}
 				return true, fmt.Sprintf("code is result #%d of %s, all of whose returns carry a non-OK constant", idx, fnKey(callee))
 			}
+		}
+	}
+	// a parameter of a denial helper: every call site of the helper must pass a provably non-OK code
+	if p, isP := resolveCell(stripConv(v)).(*ssa.Parameter); isP && p.Parent() == fn && fn != R.OIDCProcess && codeDepth < 2 {
+		idx := -1
+		for i, q := range fn.Params {
+			if q == p {
+				idx = i
+			}
+		}
+		callers := R.P.CallersOf(fn)
+		if idx >= 0 && len(callers) > 0 {
+			all := true
+			why := ""
+			codeDepth++
+			for _, site := range callers {
+				if idx >= len(site.Common().Args) {
+					all = false
+					break
+				}
+				ok2, w := codeProvablyNotOK(R, site.Parent(), site, site.Common().Args[idx])
+				if !ok2 {
+					all, why = false, w
+					break
+				}
+			}
+			codeDepth--
+			if all {
+				return true, fmt.Sprintf("code is parameter %s of the denial helper %s; each of its %d call sites passes a provably non-OK code", p.Name(), fnKey(fn), len(callers))
+			}
+			return false, "the denial helper " + fnKey(fn) + " receives a code that is not provably != OK at one of its call sites: " + why
 		}
 	}
 	return false, "cannot prove that the code " + descDepth(v, 3) + " passed to the deny writer is != OK (no constant, no dominating `!= OK` test, no callee summary)"
